@@ -29,6 +29,8 @@ def declare(rep):
     rep.rule("C20.free-layer", "the region grid of the polarizer extends at least two voxel sizes beyond the node extrema on every side: its ray marching steps from a "
              "voxel that holds a node to the next one without a bounds test, and with ceil(extent/size) voxels one voxel of margin leaves no free layer when the extent is a multiple of the voxel size", floor=6)
     rep.rule("C20.extent-covers-placed", "the region grid of the polarizer is dimensioned from the same set of points that is later placed into it (every slot of every cell's node list, free slots included)", floor=6)
+    rep.rule("C20.closed-box", "no entry point of the grids rejects, skips or answers empty for a coordinate on a face of the declared box: a range test on a coordinate against min_/max_ of its axis that survives NDEBUG states the closed interval [min, max]", floor=4)
+    rep.rule("C20.query-fresh", "get_neighborhood / get_grid_content answer from the voxels as they are at the call: every returned list is a local filled during the call (or the result of another query), never a data member kept from an earlier call", floor=4)
     rep.rule("C20.update-dimensions", "update_dimensions assigns counts, origin and extent axis-consistently and sizes the storage with nx*ny*nz", floor=2)
     rep.rule("C20.loop-ranges", "get_grid_content visits [0,n) per axis; get_neighborhood visits [i-1 (clamped at 0), i+2 (clamped at n))", floor=2)
 
@@ -52,12 +54,49 @@ def run(rep, prog, tier):
     free_layer(rep, prog)
     extent_covers_placed(rep, prog)
     for fn in fns:
+        closed_box(rep, prog, fn)
         flatten(rep, prog, fn)
         quantisation(rep, prog, fn)
         if fn["name"] == "update_dimensions":
             update_dimensions(rep, prog, fn)
         if fn["name"] in ("get_grid_content", "get_neighborhood"):
             loop_ranges(rep, prog, fn)
+            query_fresh(rep, prog, fn)
+
+
+def closed_box(rep, prog, fn):
+    coords = {p_["did"]: p_["name"] for p_ in fn.get("params", []) if p_.get("t", "").replace("const ", "").strip() in ("double", "float")}
+    if not coords:
+        return
+    bad = []
+    for n in walk(fn["body"]):
+        if n.get("k") != "BinaryOperator" or n.get("op") not in ("<", ">", "<=", ">="):
+            continue
+        l, r = strip(n["c"][0]), strip(n["c"][1])
+        for a, b, op in ((l, r, n["op"]), (r, l, {"<": ">", ">": "<", "<=": ">=", ">=": "<="}[n["op"]])):
+            if a.get("k") == "DeclRefExpr" and (a.get("ref") or {}).get("did") in coords and b.get("k") == "MemberExpr" and re.match(r"^(min|max)_[xyz]_$", (b.get("ref") or {}).get("name", "")):
+                which = b["ref"]["name"][:3]
+                # coordinate  op  bound: the closed box is  c >= min, c <= max  (and its negations  c < min,  c > max)
+                if (which == "max" and op in ("<", ">=")) or (which == "min" and op in (">", "<=")):
+                    bad.append((n, coords[a["ref"]["did"]], b["ref"]["name"], op))
+    for n, c, bnd, op in bad:
+        rep.violation("C20.closed-box", prog, fn, n, "%s tested with '%s %s %s'" % (c, c, op, bnd),
+                      "%s tests the coordinate %s with '%s %s %s': the declared box is closed, a point with %s == %s (a face or corner of the box, which place_object accepts and get_3d_voxel_index maps to the last voxel) is treated as outside - the query returns nothing / the object is not stored. (max_ equals the declared maximum whenever the extent is a multiple of the voxel size and the epsilon padding is absorbed by rounding.)" % (fn["qn"], c, c, op, bnd, c, bnd))
+    if not bad:
+        rep.ok("C20.closed-box", prog, fn, None, "%s: no range test excludes a face of the box" % fn["qn"])
+
+
+def query_fresh(rep, prog, fn):
+    rets = [r for r in walk(fn["body"], into_lambdas=False) if r.get("k") == "ReturnStmt" and isinstance(r.get("value"), dict)]
+    for r in rets:
+        v = strip(r["value"])
+        while v.get("k") in ("CXXConstructExpr", "MaterializeTemporaryExpr", "CXXBindTemporaryExpr", "ExprWithCleanups", "ImplicitCastExpr", "ParenExpr") and len([c for c in v.get("c", []) if isinstance(c, dict)]) == 1:
+            v = strip([c for c in v["c"] if isinstance(c, dict)][0])
+        if v.get("k") == "MemberExpr" and (v.get("ref") or {}).get("dk") == "Field":
+            rep.violation("C20.query-fresh", prog, fn, r, "query answers from the member %s" % v["ref"].get("name"),
+                          "%s returns the data member %s: a result kept from an earlier call. An object placed in one of the 26 surrounding voxels after that call is missing from the answer although it lies within one voxel size of the query point" % (fn["qn"], v["ref"].get("name")))
+        else:
+            rep.ok("C20.query-fresh", prog, fn, r, "returns %s" % short(v, 50))
 
 
 def is32(t):
@@ -768,7 +807,8 @@ def extent_covers_placed(rep, prog):
         else:
             u = updates[0]
             ranges, conds = source(fe, u)
-            rhs = source.norm(render(u["c"][1]))
+            from ..model import expand_text as _et2
+            rhs = source.norm(_et2(ext, u["c"][1]))       # through (reference) locals that only name the point
             tname = re.sub(r"#\d+", "", render(strip(u["c"][0])).replace(" ", ""))
             extra = [c for c in conds if tname not in re.sub(r"#\d+", "", c)]
             want_rhs = arg + ".d%s()" % axis
@@ -776,7 +816,7 @@ def extent_covers_placed(rep, prog):
                 why = "it ranges over %s while mark_boundary_voxels places the points of %s" % (ranges or "nothing", p_ranges)
             elif extra != p_conds:
                 why = "it only takes the points satisfying %s while mark_boundary_voxels places %s" % (extra, p_conds or "every point")
-            elif want_rhs not in rhs or any((arg + ".d%s()" % o) in rhs for o in "xyz" if o != axis):
+            elif want_rhs.replace("(", "").replace(")", "") not in rhs.replace("(", "").replace(")", "") or any((arg + ".d%s()" % o).replace("(", "").replace(")", "") in rhs.replace("(", "").replace(")", "") for o in "xyz" if o != axis):
                 why = "it takes %s where the point placed is %s (axis %s)" % (rhs, arg, axis)
         if why is None:
             rep.ok(rule, prog, ext, a, "%s bound of axis %s: running extremum of %s.d%s() over %s" % (side, axis, arg, axis, " / ".join(p_ranges)))
